@@ -62,6 +62,14 @@ CHECKS = {
    text="TLC model-checks Percolation.tla (bounded-closure reachability, SCCs, largest components, admissible-answer sets {(|In(C)|,|Out(C)|) : C largest}, bond-percolation outcome weights, rule/timing-defined percolated digraph) with an independent relation-squaring fixpoint and a walk-based definition cross-checked as invariants, exhaustively over all digraphs on <=4 nodes and all graph x table / type / duration-delay / bond-outcome scenarios on <=3-4 nodes (thorough adds seeded 4-6 node scenarios); every emitted scenario is replayed into estimate_SIR_prob_size_from_dir_perc (membership in the admissible set, any tie choice), percolate_network / estimate_SIR_prob_size (complete decision trees, exact probabilities), nonMarkov_directed_percolate_network(_with_timing) and estimate_nonMarkov_SIR_prob_size(_with_timing) (recorded table-driven callbacks: each ordered neighbour pair queried once with (xi[u], zeta[v]); returned graph = spec's H incl. attributes), directed_percolate_network / estimate_directed_SIR_prob_size (scripted expovariate values).",
    note="Verdicts only from returned pairs and graphs, callback arguments and draws requested from the scripted source; draw order differing from the probe is a NOTE; all numbers dyadic or Inf.",
    technique="TLA+ spec (Percolation) model-checked with TLC; TLC-emitted scenario -> admissible answers replayed into the code"),
+ "C09": dict(level="model_checking", ref="DESIGN.md §5 C09",
+   text="TraceTrans.tla replays the node-level epidemic from the full-data output of a run: status changes are consumed in time order (TLC searches over the orders of simultaneous changes), every neighbour-induced change must be matched by exactly one transmission entry that is an enabled transmission of the node-level model in the current state (edge in edge direction, source has the inducing status at that instant - at the previous step in discrete time -, target has the old status), every sourced entry must be consumed, source-less entries only for initially infected nodes, time order, transmission_tree() = sourced entries, SIR forest. Validated traces: 12 simulators on graphs with isolated nodes/components, tie-heavy table-driven fast_nonMarkov_SIR scenarios (zero delays), Gillespie_simple_contagion with 10 multi-status models on directed and undirected graphs.",
+   note="Trace validation: inputs from a seeded generator. What happens to a node AT tmin is collapsed by the simulators into its first history entry; the implied change w.r.t. the request is made explicit by the recorder before validation (documented in DESIGN).",
+   technique="TLA+ trace specification (TraceTrans, node-level guards of NetEpi/SimpleContagion) + batched TLC trace validation with search over tie orders"),
+ "C10": dict(level="model_checking", ref="DESIGN.md §5 C10",
+   text="CheckInvestigation.tla model-checks the delta-accumulation algorithm of summary() and the count-of-change-times algorithm of node_status/get_statuses against the declarative Summary/StatusAt on every small set of time-ordered histories (and TLC must produce a counterexample without time order). TraceInvestigation.tla then validates, for every simulator x scenario x seed, the arrays of the run without full data together with the identically seeded full-data run: histories well-formed (start at tmin, time-ordered, legal moves), summary() = Summary(histories), t()/S()/I()/R() = summary, summary(nodelist=subset), arrays as a step function = histories at every time either names, node_status/get_statuses at event times, midpoints, tmin and beyond the end.",
+   note="Trace validation over a seeded scenario family; discrete-time simulators under a deterministic rule (p=1); same-seed pairing assumes both return modes consume the same draws (checked exactly by C01/C02/C03/C15 for the Gillespie family).",
+   technique="TLA+ design check (CheckInvestigation) model-checked with TLC; batched TLC trace validation (TraceInvestigation) of paired seeded runs"),
 }
 NOT_YET = "check not built yet in this round (planned in DESIGN.md §5); not claimed"
 NA = {"C07": "pure numerical agreement between floating-point solutions of different ODE systems: no discrete state, history or finite oracle a TLA+ specification could enumerate (DESIGN.md §7)"}
